@@ -39,12 +39,16 @@ type replOS struct {
 	bytesAfter  int
 	lineIdx     int
 	testLine    int
+
+	// command line mode (no REPL): args of the run, stdout not a terminal (raw output), files
+	cliArgs []string
+	files   fstest.MapFS
 }
 
 type replOut struct{ o *replOS }
 
 func (w replOut) Size() (int, int) { return 130, 25 }
-func (w replOut) IsTerminal() bool { return true }
+func (w replOut) IsTerminal() bool { return w.o.cliArgs == nil }
 func (w replOut) Write(p []byte) (int, error) {
 	o := w.o
 	o.mu.Lock()
@@ -85,12 +89,22 @@ func (o *replOS) Stdin() interp.Input          { return replIn{interp.FileReader
 func (o *replOS) Stdout() interp.Output        { return replOut{o} }
 func (o *replOS) Stderr() interp.Output        { return replErr{&o.stderr} }
 func (o *replOS) InterruptChan() chan struct{} { return o.interruptCh }
-func (o *replOS) Args() []string               { return []string{"fq", "-n", "-i"} }
+func (o *replOS) Args() []string {
+	if o.cliArgs != nil {
+		return append([]string{"fq"}, o.cliArgs...)
+	}
+	return []string{"fq", "-n", "-i"}
+}
 func (o *replOS) Environ() []string {
 	return []string{"NO_COLOR=1", "NO_DECODE_PROGRESS=1", "CONFIG_DIR=/config"}
 }
 func (o *replOS) ConfigDir() (string, error) { return "/config", nil }
-func (o *replOS) FS() fs.FS                  { return fstest.MapFS{} }
+func (o *replOS) FS() fs.FS {
+	if o.files != nil {
+		return o.files
+	}
+	return fstest.MapFS{}
+}
 func (o *replOS) History() ([]string, error) { return nil, nil }
 func (o *replOS) Readline(opts interp.ReadlineOpts) (string, error) {
 	o.mu.Lock()
@@ -352,4 +366,132 @@ func judgeRepl(c ReplCase, o replObs) string {
 		return "outer-died: the enclosing REPL level did not run after leaving the interrupted level"
 	}
 	return ""
+}
+
+// ---- command line, raw output ---------------------------------------------------------------
+//
+// With stdout not a terminal binaries are written raw, through the copy functions
+// (bitio/io.Copy with 32 KiB chunks) instead of one Write per rendered line. The stdout
+// writer delivers the interrupt at the k-th write of the run; nothing of the interrupted
+// evaluation may reach stdout afterwards and the process must end (no hang).
+
+type CLICase struct {
+	Kind   string   `json:"kind"`
+	Args   []string `json:"args"`
+	File   int      `json:"file_bytes,omitempty"` // size of the generated input file big.bin
+	FireAt int      `json:"fire_at"`
+	WaitMs int      `json:"wait_ms"`
+}
+
+func cliFile(n int) []byte {
+	b := make([]byte, n)
+	for i := range b {
+		b[i] = byte(i*7 + i>>8)
+	}
+	return b
+}
+
+func runCLI(c CLICase) replObs {
+	o := &replOS{interruptCh: make(chan struct{}), wait: time.Duration(c.WaitMs) * time.Millisecond, fireAt: c.FireAt, cliArgs: c.Args, armed: true}
+	if c.File > 0 {
+		o.files = fstest.MapFS{"big.bin": &fstest.MapFile{Data: cliFile(c.File)}}
+	}
+	var obs replObs
+	i, err := interp.New(o, interp.DefaultRegistry)
+	if err != nil {
+		obs.err = err
+		return obs
+	}
+	defer i.Stop()
+	done := make(chan error, 1)
+	go func() {
+		var e error
+		pv, _ := core.Protect(func() { e = i.Main(context.Background(), o.Stdout(), "testversion") })
+		if pv != nil {
+			e = fmt.Errorf("panic: %v", pv)
+		}
+		done <- e
+	}()
+	select {
+	case obs.err = <-done:
+	case <-time.After(120 * time.Second):
+		obs.timedOut = true
+		return obs
+	}
+	o.mu.Lock()
+	defer o.mu.Unlock()
+	obs.interrupted = o.interrupted
+	obs.writesAfter, obs.bytesAfter, obs.writes = o.writesAfter, o.bytesAfter, o.writes
+	return obs
+}
+
+func judgeCLI(c CLICase, o replObs) string {
+	switch {
+	case o.timedOut:
+		return "hang: run did not end within 120 s"
+	case o.err != nil && strings.HasPrefix(o.err.Error(), "panic:"):
+		return "error: run ended with " + o.err.Error()
+	case !o.interrupted:
+		return ""
+	case o.writesAfter > 0:
+		return fmt.Sprintf("output-after-cancel: %d writes (%d bytes) of the interrupted evaluation reached stdout after the interrupt", o.writesAfter, o.bytesAfter)
+	}
+	return ""
+}
+
+func cliRawInterrupts(r *core.Run) {
+	type prog struct {
+		args []string
+		file int
+	}
+	mib := 1 << 20
+	progs := []prog{
+		{[]string{"-n", `"a" * 1048576 | tobytes`}, 0}, // one binary over a string, 32 copy chunks
+		{[]string{"-n", `("a" * 300000 | tobytes), ("b" * 300000 | tobytes), ("c" * 300000 | tobytes)`}, 0},
+		{[]string{"-n", `"a" * 1048576 | tobits | .[3:]`}, 0}, // not byte aligned
+		{[]string{"-n", `["a" * 200000, ["b" * 200000, 255], "c" * 200000] | tobytes`}, 0},
+		{[]string{"-d", "bytes", "tobytes", "big.bin"}, mib + 3},         // file backed decode value
+		{[]string{"-d", "bytes", ".[100:]", "big.bin"}, mib + 3},         // slice of it
+		{[]string{"-d", "bytes", "tobytes, tobytes", "big.bin"}, 300000}, // two outputs
+		{[]string{"-nr", `"a" * 1048576`}, 0},                            // raw string output
+		{[]string{"-nj", `range(20000) | tostring`}, 0},                  // joined output
+	}
+	fires := core.Pick(r, []int{1, 2, 5}, []int{1, 2, 3, 5, 9, 17, 31})
+	var n int64
+	idx := int64(0)
+	for pi, p := range progs {
+		for _, k := range fires {
+			idx++
+			if r.ShardN > 1 && idx%int64(r.ShardN-1) != int64(r.ShardIdx-1) {
+				continue
+			}
+			if r.Expired() {
+				r.NotExhaustive("deadline in command line raw output interrupt enumeration")
+				return
+			}
+			c := CLICase{Kind: "cli-raw", Args: p.args, File: p.file, FireAt: k, WaitMs: 150}
+			obs := runCLI(c)
+			n++
+			if bad := judgeCLI(c, obs); bad != "" {
+				c2 := c
+				c2.WaitMs = 1500
+				obs2 := runCLI(c2)
+				if bad2 := judgeCLI(c2, obs2); bad2 != "" {
+					r.Violate("cli-raw:"+strings.SplitN(bad2, ":", 2)[0], fmt.Sprintf("fq %q (stdout not a terminal) interrupt at write %d: %s", p.args, k, bad2), c2)
+				} else {
+					r.Inconclusive(fmt.Sprintf("fq %q write %d: %s with 150ms settle time only", p.args, k, bad))
+				}
+			}
+			if obs.interrupted {
+				r.Nontrivial(fmt.Sprintf("cli-raw:%d:%d", pi, k))
+				r.Count("cli_raw_interrupted_runs", 1)
+			}
+			r.Count("cli_raw_writes_seen", int64(obs.writes))
+		}
+	}
+	r.Eval(n)
+	r.AddTransitions(n)
+	r.AddTraces(n)
+	r.Sample(map[string]any{"cli_raw_case": CLICase{Kind: "cli-raw", Args: progs[0].args, FireAt: 2, WaitMs: 150}})
+	r.Section("cli-raw-output-interrupt")
 }
